@@ -431,6 +431,20 @@ func searchIntKey(p *thrift.BinaryProtocol, id int) (tt thrift.Type, start int, 
 	return
 }
 
+// pathFitsType tells if a path of type pt can address a child of a value of type t
+func pathFitsType(pt PathType, t thrift.Type) bool {
+	switch pt {
+	case PathFieldId, PathFieldName:
+		return t == thrift.STRUCT
+	case PathIndex:
+		return t == thrift.LIST || t == thrift.SET
+	case PathStrKey, PathIntKey, PathBinKey:
+		return t == thrift.MAP
+	default:
+		return true // reported as unsupported path by the callers
+	}
+}
+
 // GetByPath searches longitudinally and return a sub node at the given path from the node.
 //
 // The path is a list of PathFieldId, PathIndex, PathStrKey, PathBinKey, PathIntKey,
@@ -453,6 +467,9 @@ func (self Node) GetByPath(pathes ...Path) Node {
 	var err error
 
 	for i, path := range pathes {
+		if !pathFitsType(path.t, tt) {
+			return errNode(meta.ErrDismatchType, fmt.Sprintf("%dth path %s doesn't fit value type %s", i, path, tt), nil)
+		}
 		switch path.t {
 		case PathFieldId:
 			tt, start, err = searchFieldId(&p, path.id())
